@@ -427,6 +427,29 @@ def run_history(ctx, text, hist, reps, case):
         if got != want_none:
             ctx.violation("result-depends-on-writes-to-a-mapping-handed-out-by-an-earlier-result", case, {"text": text, "evaluated_with": label, "got": repr(got)[:300], "solo_before_the_writes": repr(want_none)[:300]})
             return
+    # the document supplied as JSON text: what results hand out is the caller's, who may change it; evaluating the same
+    # text again (same compiled query, a recompiled one, another environment) must give what the parsed value gives
+    d_text_src = impl.fresh(hist[0][0])
+    if isinstance(d_text_src, (dict, list)) and hist[0][1] is None:
+        import json
+
+        try:
+            jtext = json.dumps(d_text_src)
+        except (TypeError, ValueError):
+            jtext = None
+        if jtext is not None and json.loads(jtext) == d_text_src:
+            want_text = solo(text, json.loads(jtext), None)
+            for k, q in enumerate((p, p, p2, jsonpath.JSONPathEnvironment(filter_caching=False).compile(text), p)):
+                o = impl.call(lambda: list(q.finditer(jtext)))
+                got = ("ok", records(o.value)) if o.ok else ("raise", type(o.exc).__name__)
+                ctx.count("text_document_evaluations")
+                if got != want_text:
+                    ctx.violation("result-for-a-json-text-document-depends-on-what-the-caller-did-with-earlier-results", case,
+                                  {"text": text, "use": k, "got": repr(got)[:300], "parsed_value_solo": repr(want_text)[:300]})
+                    return
+                for m in (o.value if o.ok else []):
+                    scribble_value(m.obj)
+                    scribble_value(getattr(m, "root", None))
     if mutate_in_place(r, d0):
         ex = hist[0][1]
         kw = {"filter_context": impl.fresh(ex)} if ex is not None else {}
@@ -446,6 +469,15 @@ def run_history(ctx, text, hist, reps, case):
         return
     if len(ctx.samples) < 3 or r.random() < 0.01:
         ctx.sample({"text": text, "history_len": len(hist), "uses": len(order), "matches_per_doc": [len(x[1]) if x[0] == "ok" else x[1] for x in refs]})
+
+
+def scribble_value(v):
+    if isinstance(v, dict):
+        v["scribbled-by-the-caller"] = [1]
+    elif isinstance(v, list):
+        v.append("scribbled-by-the-caller")
+        if len(v) > 1:
+            v[0] = {"scribbled": True}
 
 
 def mutate_in_place(r, doc):
